@@ -147,8 +147,139 @@ pub fn minimise(script: Vec<Step>, sig: &str, armed: u32, budget: usize) -> (Vec
         }
         ddmin(&mut cur, &mut st);
     }
+    // argument shrinking: texts, builder placements, masks and walk lengths inside the surviving steps
+    if !over(&st) {
+        shrink_arguments(&mut cur, sig, armed, &mut st, budget);
+    }
     st.minimised = cur.len();
     (cur, st)
+}
+
+/// ddmin over the characters of a string argument.
+fn shrink_text(text: &str, mut keeps: impl FnMut(&str) -> bool, tries: &mut usize) -> String {
+    let mut cur: Vec<char> = text.chars().collect();
+    let mut n = 2usize;
+    while cur.len() >= 2 && *tries > 0 {
+        let chunk = (cur.len() + n - 1) / n;
+        let mut reduced = false;
+        let mut i = 0;
+        while i < cur.len() && *tries > 0 {
+            let hi = (i + chunk).min(cur.len());
+            let cand: String = cur[..i].iter().chain(cur[hi..].iter()).collect();
+            *tries -= 1;
+            if keeps(&cand) {
+                cur = cand.chars().collect();
+                n = (n - 1).max(2);
+                reduced = true;
+                break;
+            }
+            i = hi;
+        }
+        if !reduced {
+            if n >= cur.len() {
+                break;
+            }
+            n = (n * 2).min(cur.len());
+        }
+    }
+    cur.into_iter().collect()
+}
+
+fn shrink_arguments(cur: &mut Vec<Step>, sig: &str, armed: u32, st: &mut MinStats, budget: usize) {
+    let mut tries = budget.saturating_sub(st.replays).min(1200);
+    for i in 0..cur.len() {
+        if tries == 0 {
+            break;
+        }
+        let op = cur[i].op.clone();
+        // a closure that tests a candidate op at position i
+        let mut test = |cand: Op, cur: &mut Vec<Step>| -> bool {
+            let saved = cur[i].op.clone();
+            cur[i].op = cand;
+            let ok = same(sig, cur, armed);
+            if !ok {
+                cur[i].op = saved;
+            }
+            ok
+        };
+        match op {
+            Op::Validate { text } => {
+                let t = shrink_text(&text, |c| { let mut v = cur.clone(); v[i].op = Op::Validate { text: c.to_string() }; same(sig, &v, armed) }, &mut tries);
+                cur[i].op = Op::Validate { text: t };
+            }
+            Op::DecodeSan { fen, text } => {
+                let t = shrink_text(&text, |c| { let mut v = cur.clone(); v[i].op = Op::DecodeSan { fen: fen.clone(), text: c.to_string() }; same(sig, &v, armed) }, &mut tries);
+                cur[i].op = Op::DecodeSan { fen, text: t };
+            }
+            Op::DecodeUci { text } => {
+                let t = shrink_text(&text, |c| { let mut v = cur.clone(); v[i].op = Op::DecodeUci { text: c.to_string() }; same(sig, &v, armed) }, &mut tries);
+                cur[i].op = Op::DecodeUci { text: t };
+            }
+            Op::DecodeSquare { text } => {
+                let t = shrink_text(&text, |c| { let mut v = cur.clone(); v[i].op = Op::DecodeSquare { text: c.to_string() }; same(sig, &v, armed) }, &mut tries);
+                cur[i].op = Op::DecodeSquare { text: t };
+            }
+            Op::ValidateBuilder { placement, stm, castle, ep_file, order } => {
+                // take men off the board one at a time, then drop rights, en-passant file and call order
+                let mut pl: Vec<u8> = placement.clone().into_bytes();
+                for k in 0..pl.len() {
+                    if tries == 0 {
+                        break;
+                    }
+                    if pl[k] != b'.' {
+                        let old = pl[k];
+                        pl[k] = b'.';
+                        tries -= 1;
+                        if !test(Op::ValidateBuilder { placement: String::from_utf8(pl.clone()).unwrap(), stm, castle, ep_file, order }, cur) {
+                            pl[k] = old;
+                        }
+                    }
+                }
+                let placement = String::from_utf8(pl).unwrap();
+                for (c2, e2, o2) in [(0u8, ep_file, order), (castle, 8u8, order), (castle, ep_file, 0u8)] {
+                    if tries == 0 {
+                        break;
+                    }
+                    if let Op::ValidateBuilder { castle: cc, ep_file: ee, order: oo, .. } = cur[i].op.clone() {
+                        let (nc, ne, no) = (if c2 == 0 { 0 } else { cc }, if e2 == 8 { 8 } else { ee }, if o2 == 0 { 0 } else { oo });
+                        tries -= 1;
+                        test(Op::ValidateBuilder { placement: placement.clone(), stm, castle: nc, ep_file: ne, order: no }, cur);
+                    }
+                }
+            }
+            Op::Engine { c, task, e: EOp::SetMask(bb) } | Op::Engine { c, task, e: EOp::RemoveMask(bb) } => {
+                let is_set = matches!(op, Op::Engine { e: EOp::SetMask(_), .. });
+                let mut m = bb;
+                let mut bit = 0;
+                while bit < 64 && tries > 0 {
+                    if m & (1u64 << bit) != 0 && m.count_ones() > 1 {
+                        let cand = m & !(1u64 << bit);
+                        tries -= 1;
+                        let e = if is_set { EOp::SetMask(cand) } else { EOp::RemoveMask(cand) };
+                        if test(Op::Engine { c, task, e }, cur) {
+                            m = cand;
+                        }
+                    }
+                    bit += 1;
+                }
+            }
+            Op::Engine { c, task, e: EOp::LibWalk { picks } } => {
+                let mut pk = picks.clone();
+                while pk.len() > 1 && tries > 0 {
+                    let mut shorter = pk.clone();
+                    shorter.pop();
+                    tries -= 1;
+                    if test(Op::Engine { c, task, e: EOp::LibWalk { picks: shorter.clone() } }, cur) {
+                        pk = shorter;
+                    } else {
+                        break;
+                    }
+                }
+            }
+            _ => {}
+        }
+    }
+    st.replays += 1200usize.saturating_sub(tries).min(1200);
 }
 
 // ------------------------------------------------------------------------------ replay files
